@@ -319,7 +319,7 @@ class Locals:
                     return False
         return d.lineno < ul or bool(loops_def)
 
-    def expand(self, e: ast.AST, at: Optional[ast.AST] = None, depth: int = 5) -> ast.AST:
+    def expand(self, e: ast.AST, at: Optional[ast.AST] = None, depth: int = 5, stop: Iterable[str] = ()) -> ast.AST:
         import copy as _copy
 
         at = at if at is not None else e
@@ -327,8 +327,8 @@ class Locals:
 
         class T(ast.NodeTransformer):
             def visit_Name(self, node: ast.Name):
-                if isinstance(node.ctx, ast.Load) and node.id in loc.defs and depth > 0 and loc._stable(loc.defs[node.id], at):
-                    return loc.expand(_copy.deepcopy(loc.defs[node.id].value), at, depth - 1)
+                if isinstance(node.ctx, ast.Load) and node.id in loc.defs and node.id not in stop and depth > 0 and loc._stable(loc.defs[node.id], at):
+                    return loc.expand(_copy.deepcopy(loc.defs[node.id].value), at, depth - 1, stop)
                 return node
 
             def visit_Lambda(self, node):
@@ -337,8 +337,8 @@ class Locals:
         new = T().visit(_copy.deepcopy(e))
         return new
 
-    def text(self, e: ast.AST, at: Optional[ast.AST] = None) -> str:
-        return norm(self.expand(e, at))
+    def text(self, e: ast.AST, at: Optional[ast.AST] = None, stop: Iterable[str] = ()) -> str:
+        return norm(self.expand(e, at, stop=stop))
 
 
 def call_name(call: ast.Call) -> Optional[str]:
